@@ -61,4 +61,27 @@ MUTANTS = [
                 .swap(false, Ordering::Relaxed);""", new="""            self.run_tick_sync();
             let can_start_tick = self.wake_state.can_start_tick.load(Ordering::Relaxed);
             self.wake_state.can_start_tick.store(false, Ordering::Relaxed);"""),
+    dict(name="c01-derive-short-circuit", prop="C01", expect="C01.allfields", file="lattices_macro/src/lib.rs",
+         old="changed |= #root::Merge::merge(&mut self.#field_names, other.#field_names);", new="changed = changed || #root::Merge::merge(&mut self.#field_names, other.#field_names);"),
+    dict(name="c01-withtop-drop-nested-merge", prop="C01", expect="C01.used", file="lattices/src/with_top.rs",
+         old="            (Some(self_inner), Some(other_inner)) => self_inner.merge(other_inner),\n        }\n    }\n}\n\nimpl<Inner, Other> LatticeFrom",
+         new="            (Some(self_inner), Some(other_inner)) => {\n                let _ = (self_inner, other_inner);\n                false\n            }\n        }\n    }\n}\n\nimpl<Inner, Other> LatticeFrom"),
+    dict(name="c02-max-swapped-flags", prop="C02", expect="C02.write", file="lattices/src/ord.rs",
+         old="        if self.0 < other.0 {\n            self.0 = other.0;\n            true\n        } else {\n            false\n        }", new="        if self.0 < other.0 {\n            self.0 = other.0;\n            false\n        } else {\n            true\n        }"),
+    dict(name="c02-vecunion-drop-flag", prop="C02", expect="C02.flagflow", file="lattices/src/vec_union.rs",
+         old="            changed |= self_val.merge(other_val);", new="            self_val.merge(other_val);"),
+    dict(name="c02-setunion-old-len-late", prop="C02", expect="C02.lenpair", file="lattices/src/set_union.rs",
+         old="        let old_len = self.0.len();\n        self.0.extend(other.0);\n        self.0.len() > old_len", new="        self.0.extend(other.0);\n        let old_len = self.0.len();\n        self.0.len() > old_len"),
+    dict(name="c03-withbot-cmp-ignores-bottom", prop="C03", expect="C03.used", file="lattices/src/with_bot.rs",
+         old="            (None, None) => Some(Equal),\n            (None, Some(bot)) if bot.is_bot() => Some(Equal),\n            (Some(bot), None) if bot.is_bot() => Some(Equal),\n", new="            (None, None) => Some(Equal),\n"),
+    dict(name="c05-set-delete-filter", prop="C05", expect="C05.filter", file="lattices/src/set_union_with_tombstones.rs",
+         old="                .into_iter()\n                .filter(|x| !self.tombstones.contains(x)),", new="                .into_iter(),"),
+    dict(name="c05-map-delete-remove", prop="C05", expect="C05.remove", file="lattices/src/map_union_with_tombstones.rs",
+         old="            .extend(other_tombstones.into_iter().inspect(|k| {\n                self.map.remove(k);\n            }));", new="            .extend(other_tombstones.into_iter());"),
+    dict(name="c09-cmonoid-drop-commutativity", prop="C09", expect="C09.conj", file="lattices/src/algebra.rs",
+         old="    monoid(items, f, zero)?;\n    commutativity(items, f)?;\n    Ok(())", new="    monoid(items, f, zero)?;\n    Ok(())"),
+    dict(name="c09-semiring-absorbing-wrong-op", prop="C09", expect="C09.conj", file="lattices/src/algebra.rs",
+         old="    absorbing_element(items, g, zero)?;", new="    absorbing_element(items, f, zero)?;"),
+    dict(name="c09-ring-drop-question-mark", prop="C09", expect="C09.err", file="lattices/src/algebra.rs",
+         old="    semiring(items, f, g, zero.clone(), one)?;\n    inverse(items, f, zero, b)?;\n    Ok(())", new="    semiring(items, f, g, zero.clone(), one)?;\n    let _ = inverse(items, f, zero, b);\n    Ok(())"),
 ]
